@@ -39,14 +39,14 @@ def indicator_lemmas(run: Run):
         run.counters["smt_queries"] += 1
         run.counters["smt_time_s"] += dt
         if verdict == "equal":
-            run.ob(name, "z3-re", HELD, time_s=round(dt, 3), bound="all strings over ASCII+∧∨⊻, no length bound")
+            run.ob(name, "z3-re", HELD, time_s=round(dt, 3), bound=sre2z3.BOUND)
         else:
             run.ob(name, "z3-re", INCONCLUSIVE, detail=f"{verdict} ({sre2z3.unescape_z3(wit) if wit else ''}); consequences are decided by the callbacks lemma and the glue harness")
         # enumerate the live language completely (z3 AllSAT until unsat) and push every member through the real callback
         s = z3.String("s")
         sol = z3.Solver()
         sol.set("timeout", 20000)
-        sol.add(z3.InRe(s, live), z3.InRe(s, sre2z3.alphabet_re()))
+        sol.add(z3.InRe(s, live))
         members = []
         complete = False
         while len(members) < 400:
@@ -77,7 +77,7 @@ def indicator_lemmas(run: Run):
             v, why = bad[0]
             what = f"{tname} lexeme '{v}' (accepted by the parser) {why}"
             run.ob(lname, "z3-re+replay", VIOLATED, detail=what)
-            run.violation(lname, what, {"entry": tname, "spelling_is_lowercase": v.islower(), "raises": "raises" in why}, {"kind": "C09-token", "property": "C09", "terminal": tname, "lexeme": v})
+            run.violation(lname, what, {"entry": tname, "spelling_is_lowercase": v.islower() and v.isascii(), "non_ascii_lexeme": not v.isascii(), "raises": "raises" in why}, {"kind": "C09-token", "property": "C09", "terminal": tname, "lexeme": v})
         else:
             run.ob(lname, "z3-re+replay", HELD if complete else INCONCLUSIVE)
         run.sample({"terminal": tname, "members": members[:8]})
@@ -107,7 +107,7 @@ def main(run: Run) -> int:
     run.bounds["glue"] = f"{n} assembled expressions: every modal-mark spelling (14) x 5 condition parts x rotated whitespace, bare marks, prefix operators (6 spellings), two/three-part expressions with optional trailing bare mark; all states of <= 3 requirement keys"
     run.bounds["select"] = "k <= 3 (4 thorough) parts"
     common_assumptions(run)
-    run.outside += ["requirement_is_conditional of a part that was selected among several (the code forces it to True)", "code points outside ASCII in indicator spellings (Python's Unicode case folding)", "the split itself happens inside Lark (concretised): claimed for the assembled strings only"]
+    run.outside += ["requirement_is_conditional of a part that was selected among several (the code forces it to True)", "code points above U+2FFFF in the terminal lemmas (z3's character sort)", "the split itself happens inside Lark (concretised): claimed for the assembled strings only"]
     return run.finish(
         "model_checking",
         "Terminal languages decided by z3 regex equality (unbounded); the finite live language is enumerated completely by z3 and every lexeme is replayed on the real token callbacks; "
